@@ -225,7 +225,14 @@ impl ExprReply {
                     }
                     recurse(&binop.left, parts, succ);
                     literal!(binop.op.symbol());
-                    recurse(&binop.right, parts, op_prec);
+                    // same rule as `Display for Expr`: only `^` is
+                    // right-associative
+                    let right_prec = if binop.op == crate::ast::BinOpType::Pow {
+                        op_prec
+                    } else {
+                        succ
+                    };
+                    recurse(&binop.right, parts, right_prec);
                     if prec < op_prec {
                         literal!(")");
                     }
@@ -258,7 +265,7 @@ impl ExprReply {
                         literal!("(");
                     }
                     let mut sub = vec![];
-                    recurse(expr, &mut sub, Precedence::Div);
+                    recurse(expr, &mut sub, Precedence::Mul);
                     parts.push(ExprParts::Property {
                         property: property.to_owned(),
                         subject: sub,
